@@ -2644,10 +2644,10 @@ def table_idx_from_labels(labels):
     exponent = 0
     for i in range(-1, 2):
         ilow = (i == -1 and 1) or 0
-        iend = (i == 1 and labels.shape[0] - 1) or labels.shape[0]
+        iend = labels.shape[0] - 1 if i == 1 else labels.shape[0]
         for j in range(-1, 2):
             jlow = (j == -1 and 1) or 0
-            jend = (j == 1 and labels.shape[1] - 1) or labels.shape[1]
+            jend = labels.shape[1] - 1 if j == 1 else labels.shape[1]
             #
             # Points outside of bounds are different from what's outside,
             # so set untouched points to "different"
